@@ -51,6 +51,9 @@ AllAEs == {
   [text |-> "identity",            el |-> <<El("identity", 10, TRUE)>>],
   [text |-> "*",                   el |-> <<El("*", 10, TRUE)>>],
   [text |-> "gzip;q=0",            el |-> <<El("gzip", 0, FALSE)>>],
+  \* the same refusal spelled with optional white space around ";" (RFC 7231's own examples do)
+  [text |-> "gzip; q=0",           el |-> <<El("gzip", 0, FALSE)>>],
+  [text |-> "identity; q=1.0, gzip ; q=0.0", el |-> <<El("identity", 10, FALSE), El("gzip", 0, FALSE)>>],
   [text |-> "br, gzip;q=0",        el |-> <<El("br", 10, TRUE), El("gzip", 0, FALSE)>>],
   [text |-> "gzip;q=0.5, zstd",    el |-> <<El("gzip", 5, FALSE), El("zstd", 10, TRUE)>>],
   [text |-> "gzip;q=0, *",         el |-> <<El("gzip", 0, FALSE), El("*", 10, TRUE)>>],
@@ -82,7 +85,10 @@ ExtOK(c, p) == \/ c.ext = "star"
 
 \* ---- inner responses ------------------------------------------------------
 AllPatterns == << <<"wL">>, <<"wS">>, <<>>, <<"w0">>, <<"wS", "wL">>, <<"f", "wL">>, <<"wL", "f", "wS">>,
-                  <<"w0", "wL">>, <<"wL", "w0", "f">>, <<"f">>, <<"f", "f", "wS">>, <<"wL", "wL", "wL">>, <<"w0", "f", "wL">>, <<"wX">>, <<"wS", "f", "wX">> >>
+                  <<"w0", "wL">>, <<"wL", "w0", "f">>, <<"f">>, <<"f", "f", "wS">>, <<"wL", "wL", "wL">>, <<"w0", "f", "wL">>, <<"wX">>, <<"wS", "f", "wX">>,
+                  \* "h" = a further WriteHeader call after the response has begun (net/http ignores it; error
+                  \* layers make one when they answer on top of a written response)
+                  <<"wS", "h", "wL">>, <<"wL", "h", "wS", "f">> >>
 Bytes(op) == IF op = "wL" THEN 100 ELSE IF op = "wS" THEN 5 ELSE IF op = "wX" THEN 70000 ELSE 0
 RECURSIVE Total(_)
 Total(ops) == IF ops = <<>> THEN 0 ELSE Bytes(Head(ops)) + Total(Tail(ops))
@@ -96,11 +102,16 @@ OKProbe(x) == (x.status # 200 => x.explicit) /\ (x.cl => BodyAllowed(x.status))
 SimpleProbes == {Probe(200, FALSE, TRUE, TRUE, "none", "none", <<"wL">>), Probe(200, TRUE, FALSE, FALSE, "none", "strong", <<"wS", "wL">>)}
 SibSeqs == {<<>>, <<"gz">>, <<"br">>, <<"zst">>, <<"gz", "br">>, <<"gz", "zst">>, <<"br", "zst">>, <<"gz", "br", "zst">>}
 Has(sibs, s) == \E i \in 1..Len(sibs) : sibs[i] = s
-Static(sibs) == [kind |-> "static", status |-> 200, explicit |-> TRUE, ct |-> TRUE, cl |-> TRUE, pre |-> "none", etag |-> "strong", ops |-> <<"wL">>, sibs |-> sibs]
+Static(sibs) == [kind |-> "static", status |-> 200, explicit |-> TRUE, ct |-> TRUE, cl |-> TRUE, pre |-> "none", etag |-> "strong", ops |-> <<"wL">>, sibs |-> sibs, hidden |-> FALSE]
+\* a file on the site's hide list (the Casketfile itself) that has every precompressed sibling: the
+\* file server answers 404 whatever the client offers, and nothing about the siblings shows
+HiddenStatic == [kind |-> "static", status |-> 404, explicit |-> TRUE, ct |-> TRUE, cl |-> FALSE, pre |-> "none", etag |-> "none", ops |-> <<"wS">>,
+                 sibs |-> <<"gz", "br", "zst">>, hidden |-> TRUE]
 \* serveFile: staticEncodingPriority
 StaticPre(sibs, a) == IF Lists(a, "zstd") /\ Has(sibs, "zst") THEN "zstd"
                       ELSE IF Lists(a, "br") /\ Has(sibs, "br") THEN "br"
                       ELSE IF Lists(a, "gzip") /\ Has(sibs, "gz") THEN "gzip" ELSE "none"
+StaticCE(x, a) == IF x.hidden THEN "none" ELSE StaticPre(x.sibs, a)
 
 VARIABLES cfg, path, ae, inner,
           pc, opi,
@@ -130,6 +141,11 @@ Init ==
           /\ path = "/s.txt"
           /\ ae \in AEs
           /\ inner \in {Static(s) : s \in SibSeqs}
+       \/ \* family C': the hidden file with siblings
+          /\ cfg \in {Cfg("default", FALSE, lv, ml) : lv \in LevelsA, ml \in MinLens}
+          /\ path = "/hid.txt"
+          /\ ae \in AEs
+          /\ inner = HiddenStatic
     /\ pc = "req" /\ opi = 1 /\ engaged = FALSE /\ decided = FALSE /\ compress = FALSE
     /\ hdr = NoHdr /\ sent = FALSE /\ wire = NoHdr /\ raw = 0 /\ gzin = 0 /\ gzopen = FALSE /\ closed = FALSE
 
@@ -143,7 +159,7 @@ RequestFilters ==
 \* the inner handler sets its headers
 InnerHeaders ==
     /\ pc = "hdrs"
-    /\ LET pre == IF inner.kind = "static" THEN StaticPre(inner.sibs, ae) ELSE inner.pre IN
+    /\ LET pre == IF inner.kind = "static" THEN StaticCE(inner, ae) ELSE inner.pre IN
        hdr' = [ce |-> pre, cl |-> inner.cl, etag |-> inner.etag, vary |-> (inner.kind = "static" /\ pre # "none")]
     /\ pc' = IF inner.explicit THEN "status" ELSE "ops"
     /\ UNCHANGED <<cfg, path, ae, inner, opi, engaged, decided, compress, sent, wire, raw, gzin, gzopen, closed>>
@@ -190,6 +206,16 @@ DoFlush ==
     /\ opi' = opi + 1
     /\ UNCHANGED <<cfg, path, ae, inner, pc, engaged, raw, gzin, closed>>
 
+\* a WriteHeader call: the first one is header time; a later one changes nothing (the code before the
+\* repair made the decision again, saw the Content-Encoding it had set itself and went on uncompressed)
+DoHeaderAgain ==
+    /\ pc = "ops" /\ opi <= Len(inner.ops) /\ CurOp = "h"
+    /\ IF ~decided THEN Decide
+       ELSE IF Repaired THEN Undecided
+       ELSE compress' = FALSE /\ UNCHANGED <<decided, hdr, gzopen, wire, sent>>
+    /\ opi' = opi + 1
+    /\ UNCHANGED <<cfg, path, ae, inner, pc, engaged, raw, gzin, closed>>
+
 \* the handler returns: the server commits the headers if nobody did; deferred putWriter closes the stream
 Finish ==
     /\ pc = "ops" /\ opi > Len(inner.ops)
@@ -199,13 +225,13 @@ Finish ==
     /\ pc' = "done"
     /\ UNCHANGED <<cfg, path, ae, inner, opi, engaged, decided, compress, hdr, raw, gzin, gzopen>>
 
-Next == RequestFilters \/ InnerHeaders \/ DoStatus \/ DoWrite \/ DoFlush \/ Finish
+Next == RequestFilters \/ InnerHeaders \/ DoStatus \/ DoWrite \/ DoFlush \/ DoHeaderAgain \/ Finish
 Spec == Init /\ [][Next]_vars /\ WF_vars(Next)
 
 \* ---- declarative properties (the statement, clause by clause) ------------------------
 Done == pc = "done"
 Body == BodyAllowed(inner.status)
-InnerPre == IF inner.kind = "static" THEN StaticPre(inner.sibs, ae) ELSE inner.pre
+InnerPre == IF inner.kind = "static" THEN StaticCE(inner, ae) ELSE inner.pre
 Coding(c) == IF c \in {"none", "identity"} THEN <<>> ELSE <<c>>
 \* codings really applied to the bytes on the wire, in order
 Applied == Coding(InnerPre) \o (IF gzin > 0 \/ closed THEN <<"gzip">> ELSE <<>>)
